@@ -59,6 +59,85 @@ def simplest(v, dtype=np.float32):
   return Fraction(0)
 
 
+NUMERIC_MODE = [False]   # set while a numeric (validation) interpretation runs: no algebraic constants
+
+
+def deround(v, dtype=np.float32):
+  """Real-number reading of a float constant: simplest rational in its rounding interval, or -- when that
+  rational is complicated but the square of the interval contains a simple rational q -- the algebraic number
+  sqrt(q) (constants such as 1/sqrt(d))."""
+  r = simplest(v, dtype)
+  if NUMERIC_MODE[0] or r.denominator <= 64:
+    return r
+  dt = np.dtype(dtype) if np.dtype(dtype).kind == 'f' else np.dtype(np.float32)
+  ulp = abs(float(np.spacing(np.asarray(abs(float(v)), dtype=dt))))
+  a = abs(Fraction(float(v)))
+  lo, hi = (a - Fraction(ulp) / 2) ** 2, (a + Fraction(ulp) / 2) ** 2
+  fl = math.floor(lo)
+
+  def sb(lo, hi):
+    fl = math.floor(lo)
+    if fl == lo:
+      return Fraction(fl)
+    if fl + 1 <= hi:
+      return Fraction(fl + 1)
+    return fl + 1 / sb(1 / (hi - fl), 1 / (lo - fl))
+  q = sb(lo, hi)
+  if NUMERIC_MODE[0]:
+    return r
+  if q.denominator * max(1, abs(q.numerator)) * 64 < r.denominator * max(1, abs(r.numerator)):
+    t = sqrt_const(q)
+    return -t if v < 0 else t
+  return r
+
+
+CONST_FACTS = {}
+
+
+def sqrt_const(q):
+  """The algebraic number sqrt(q) as a named constant with defining facts (kept polynomial for the solver)."""
+  q = Fraction(q)
+  n, d = math.isqrt(q.numerator), math.isqrt(q.denominator)
+  if n * n == q.numerator and d * d == q.denominator:
+    return Fraction(n, d)
+  name = 'sqrtc_%d_%d' % (q.numerator, q.denominator)
+  c = z3.Real(name)
+  lo = Fraction(math.sqrt(q)) * Fraction(999, 1000)
+  CONST_FACTS[name] = [c > z3.RealVal(str(lo)), c * c == z3.RealVal(str(q))]
+  return c
+
+
+def int_to_real(v):
+  """ToReal pushed through +,-,*,ite so that sign terms stay in real arithmetic."""
+  if not is_z(v):
+    return Fraction(v)
+  if z3.is_real(v):
+    return v
+  if z3.is_int_value(v):
+    return z3.RealVal(v.as_long())
+  if z3.is_app(v):
+    k = v.decl().kind()
+    ch = v.children()
+    if k == z3.Z3_OP_ADD:
+      return z3.Sum([int_to_real(c) for c in ch])
+    if k == z3.Z3_OP_SUB and len(ch) == 2:
+      return int_to_real(ch[0]) - int_to_real(ch[1])
+    if k == z3.Z3_OP_UMINUS:
+      return -int_to_real(ch[0])
+    if k == z3.Z3_OP_MUL:
+      r = int_to_real(ch[0])
+      for c in ch[1:]:
+        r = r * int_to_real(c)
+      return r
+    if k == z3.Z3_OP_ITE:
+      return z3.If(ch[0], int_to_real(ch[1]), int_to_real(ch[2]))
+  return z3.ToReal(v)
+
+
+def is_const(b):
+  return is_z(b) and (z3.is_algebraic_value(b) or z3.is_rational_value(b) or z3.is_int_value(b) or (z3.is_const(b) and b.decl().name().startswith('sqrtc_')))
+
+
 class XR:
   """Extended real: nan / +inf / -inf flags (python bool or z3 Bool, mutually exclusive) else finite v."""
   __slots__ = ('v', 'nan', 'pinf', 'ninf')
@@ -327,6 +406,12 @@ def f_div(a, b):
   if not isinstance(a, XR) and not isinstance(b, XR) and not is_z(b):
     if b != 0:
       return n_div(a, b)
+  if not isinstance(a, XR) and is_const(b) and not z3.is_true(z3.simplify(zr(b) == 0)):
+    if z3.is_const(b) and b.decl().name().startswith('sqrtc_'):
+      _, n, d = b.decl().name().split('_')
+      inv = sqrt_const(Fraction(int(d), int(n)))     # a / sqrt(q) = a * sqrt(1/q): keeps terms polynomial
+      return n_mul(a, inv)
+    return zreal(a) / b
   a, b = xr(a), xr(b)
   bz = x_zero(b)
   nan = B_or(a.nan, b.nan, B_and(x_inf(a), x_inf(b)), B_and(x_zero(a), bz))
@@ -488,6 +573,7 @@ class Ctx:
         return Fraction(n, d)
       if self.numeric:
         return Fraction(math.sqrt(a))
+      return sqrt_const(a)
     za = zreal(a)
     canon = z3.simplify(za, som=True)
     k = canon.get_id()
@@ -549,7 +635,10 @@ class Ctx:
     return t
 
   def all_facts(self):
-    return list(self.facts)
+    out = list(self.facts)
+    for fs in CONST_FACTS.values():
+      out += fs
+    return out
 
 
 # --------------------------------------------------------------------------------------
@@ -585,7 +674,7 @@ def lift(x, dtype=None):
       elif math.isinf(fv):
         oflat[i] = PINF if fv > 0 else NINF
       else:
-        oflat[i] = simplest(fv, x.dtype if kind == 'f' else np.float32)
+        oflat[i] = deround(fv, x.dtype if kind == 'f' else np.float32)
     else:
       raise Unsupported('dtype %s' % x.dtype)
   return oflat.reshape(x.shape)
@@ -663,7 +752,7 @@ def index_track(prim, params, invals, positions):
 
 
 STRUCTURAL = {'reshape', 'broadcast_in_dim', 'squeeze', 'transpose', 'slice', 'expand_dims', 'rev',
-              'concatenate', 'copy_p', 'split', 'unstack'}
+              'concatenate', 'copy_p', 'split', 'unstack', 'stack'}
 
 
 # --------------------------------------------------------------------------------------
@@ -922,7 +1011,12 @@ class Interp:
 
   # -- entry ---------------------------------------------------------------------------
   def eval_closed(self, closed, *args):
-    return self.eval_jaxpr(closed.jaxpr, closed.consts, *args)
+    prev = NUMERIC_MODE[0]
+    NUMERIC_MODE[0] = bool(self.ctx.numeric)
+    try:
+      return self.eval_jaxpr(closed.jaxpr, closed.consts, *args)
+    finally:
+      NUMERIC_MODE[0] = prev
 
   def eval_jaxpr(self, jaxpr, consts, *args):
     env = {}
@@ -1314,7 +1408,7 @@ class Interp:
       return a
     if ok == 'f':
       if ik == 'i':
-        return ew(lambda v: z3.ToReal(v) if is_z(v) else (v if isinstance(v, (XR, Bits)) else Fraction(v)), a)
+        return ew(lambda v: int_to_real(v) if is_z(v) else (v if isinstance(v, (XR, Bits)) else Fraction(v)), a)
       if ik == 'b':
         return ew(lambda v: B_ite(v, Fraction(1), Fraction(0)), a)
     if ok == 'i':
@@ -1534,3 +1628,41 @@ def model_array(model, arr, dtype=np.float64):
   for idx in np.ndindex(*arr.shape):
     out[idx] = model_value(model, arr[idx])
   return out
+
+
+def abstract_noise_atoms(exprs, noise_vars):
+  """Replace every maximal Bool-sorted subterm whose free constants are all noise variables (uniform draws) by a
+  fresh Bool.  Sound for validity (fresh Bools are less constrained than the atoms); sat answers need replay."""
+  noise_ids = {v.get_id() for v in noise_vars}
+  cache, atoms = {}, {}
+
+  def consts(t):
+    k = t.get_id()
+    if k in cache:
+      return cache[k]
+    if z3.is_const(t) and t.decl().kind() == z3.Z3_OP_UNINTERPRETED:
+      r = (frozenset([k]) if True else frozenset())
+    elif z3.is_app(t):
+      r = frozenset().union(*[consts(c) for c in t.children()]) if t.num_args() else frozenset()
+    else:
+      r = frozenset()
+    cache[k] = r
+    return r
+  done = {}
+
+  def walk(t):
+    k = t.get_id()
+    if k in done:
+      return done[k]
+    cs = consts(t)
+    if z3.is_bool(t) and cs and cs <= noise_ids:
+      if k not in atoms:
+        atoms[k] = z3.Bool('noise_atom_%d' % len(atoms))
+      r = atoms[k]
+    elif z3.is_app(t) and t.num_args() and (cs & noise_ids):
+      r = t.decl()(*[walk(c) for c in t.children()])
+    else:
+      r = t
+    done[k] = r
+    return r
+  return [walk(e) if is_z(e) else e for e in exprs], len(atoms)
